@@ -1,6 +1,7 @@
 import Dcg.Driver.Proto
 import Dcg.Py.Import
 import Dcg.Model.Modules
+import Dcg.Model.ModulesNorm
 import Dcg.Model.Resolver
 namespace Dcg.Driver.Modules
 open Dcg.Driver Dcg.Py.Import Dcg.Model.Modules
@@ -115,6 +116,25 @@ def handlers : List (String × Handler) := [
           | none => "diverges"
         else "unmodelled"
       | _, _, _ => "err args"
+    | _ => "err args"),
+  ("mod.setclass", fun
+    | [t, name, cls] => match t.bool?, name.str?, cls.str? with
+      | some t, some nm, some c =>
+        let nn := setClassName nm c
+        "ok " ++ encodeStr nn ++ " " ++ encodeStr (className nn) ++
+          String.join ((getModulePath t nn none).map (fun p => " " ++ encodeStr p))
+      | _, _, _ => "err args"
+    | [t, name, cls, dirs, stem] => match t.bool?, name.str?, cls.str?, dirs.strs?, stem.str? with
+      | some t, some nm, some c, some ds, some st =>
+        let nn := setClassName nm c
+        "ok " ++ encodeStr nn ++ " " ++ encodeStr (className nn) ++
+          String.join ((getModulePath t nn (some (ds, st))).map (fun p => " " ++ encodeStr p))
+      | _, _, _, _, _ => "err args"
+    | _ => "err args"),
+  ("mod.results", fun
+    | [t, mods] => match t.bool?, SX.paths? mods with
+      | some t, some mods => encMap (resultsFinal t mods)
+      | _, _ => "err args"
     | _ => "err args"),
   ("mod.checks", fun
     | [t, mods] => match t.bool?, SX.paths? mods with
